@@ -93,6 +93,7 @@ type XferRes struct {
 	Crashes            []fsmodel.Tree
 	Parked             []string
 	FaultHit           bool
+	Counts             map[string]int // calls per kind in this execution
 }
 
 var errInjected = errors.New("injected fault")
@@ -294,6 +295,9 @@ func xferBody(sc Scn, src fsmodel.Tree, destDir string, res *XferRes) Body {
 			}
 		}
 		res.Notes = notes.Sorted()
+		res.Counts = link.Counts()
+		res.Counts["hasher"], res.Counts["notify"] = hcalls, ncalls
+		res.Counts["steps"] = s.N()
 	}
 }
 
